@@ -544,3 +544,64 @@ Example C08_totals_are_not_sums_of_positions :
   | _, _, _, _ => False
   end.
 Proof. vm_compute. reflexivity. Qed.
+
+(** * The correspondence checker evaluates the plain machine
+
+    [check_history] / [mismatches] (Model/Hard.v), which the harness evaluates on every recorded
+    history, re-tabulate the model state after every step ([normalize]) for evaluation speed.
+    Proofs/RetabHard.v proves that this changes nothing: on the in-range indexes (accounts <
+    nacc, users < nu, denoms < nd; a record = its amounts on the denoms < nd and its index list)
+    the re-tabulated state has the components of the plain one, every operation reads in-range
+    indexes only, and so the checker returns exactly what the same checker WITHOUT [normalize]
+    returns ([check_history_plain]: step / step' only).  What normalize drops is the value of the
+    components at out-of-range indexes. *)
+From Kava Require Proofs.RetabCommon Proofs.RetabHard.
+
+Theorem C08_normalize_agrees_in_range : forall e s, RetabHard.steq e (normalize e s) s.
+Proof. exact RetabHard.normalize_steq. Qed.
+Print Assumptions C08_normalize_agrees_in_range.
+
+(* every operation maps states that agree in range to states that agree in range, with the
+   same result class (Ok / Err / Panic) *)
+Theorem C08_step_respects_in_range_agreement :
+  forall e s s' o, RetabHard.steq e s s' ->
+  RetabCommon.orel (RetabHard.steq e) (step e s o) (step e s' o).
+Proof. exact RetabHard.step_steq. Qed.
+Print Assumptions C08_step_respects_in_range_agreement.
+
+Theorem C08_observables_respect_in_range_agreement :
+  forall e s s', RetabHard.steq e s s' -> project e s = project e s' /\ inv_b e s = inv_b e s'.
+Proof. intros e s s' Q. split; [apply RetabHard.project_steq|apply RetabHard.inv_b_steq]; exact Q. Qed.
+Print Assumptions C08_observables_respect_in_range_agreement.
+
+Theorem C08_checker_is_plain_run :
+  forall h, check_history h = RetabHard.check_history_plain h.
+Proof. exact RetabHard.check_history_retab_eq_plain. Qed.
+Print Assumptions C08_checker_is_plain_run.
+
+Theorem C08_mismatches_is_plain_run :
+  forall hs, mismatches hs = RetabHard.mismatches_plain hs.
+Proof. exact RetabHard.mismatches_retab_eq_plain. Qed.
+Print Assumptions C08_mismatches_is_plain_run.
+
+(* the states the plain checker accepts are the states of [run] on the history's operations:
+   after every accepted prefix the invariant holds and the view equals the recorded one *)
+Theorem C08_plain_checker_visits_run :
+  forall e h s sh i, RetabHard.first_mismatch_plain e s sh h i = None ->
+  forall k, (k <= length h)%nat ->
+    let st := run e s (map fst (firstn k h)) in
+    inv_b e st = true /\ view_eqb (project e st) (fold_left apply_obs (map snd (firstn k h)) sh) = true
+    \/ k = 0%nat.
+Proof. exact RetabHard.first_mismatch_plain_states. Qed.
+Print Assumptions C08_plain_checker_visits_run.
+
+(* non-vacuity: a recorded observation that contradicts the plain run is reported, by both *)
+Example C08_plain_checker_nonvacuous :
+  let e := mk_env 1 1 0 in
+  let s0 := mk_state [[100]; [0]; [0]] [PREC] [None] [None] in
+  let ok := mkObs ROk [] [] [] [] [] [] [] [] [] [] [] [] in
+  let h_ok := mkHist e s0 [(SetPrice 0 (2 * PREC), ok); (Deposit 0 [(0%nat, 5)], mkObs RErr [] [] [] [] [] [] [] [] [] [] [] [])] in
+  let h_bad := mkHist e s0 [(SetPrice 0 (2 * PREC), ok); (Deposit 0 [(0%nat, 5)], ok)] in
+  RetabHard.check_history_plain h_ok = None /\ check_history h_ok = None /\
+  RetabHard.check_history_plain h_bad = Some 1%nat /\ check_history h_bad = Some 1%nat.
+Proof. cbv zeta. repeat split; vm_compute; reflexivity. Qed.
